@@ -210,3 +210,38 @@ func HC07_enumFileOrder() {
 	}
 	vfAssert(same, "C07/enum-members-independent-of-the-order-the-files-were-parsed")
 }
+
+// HC07_foreignEnumConstant: an enum declared in one package of the tree and a further constant of
+// its type declared in another package that imports it (a diamond from the analysed package): the
+// members reported for the enum do not depend on the order in which the Imports maps are walked.
+func HC07_foreignEnumConstant() {
+	colors := vfTypeCheck("example.com/mod/colors", []string{"/m/colors/colors.go"}, []string{"package colors\n\ntype Color int\n\nconst (\n\tRed Color = iota\n\tGreen\n\tBlue\n)\n"}, nil)
+	extra := vfTypeCheck("example.com/mod/extra", []string{"/m/extra/extra.go"}, []string{"package extra\n\nimport \"example.com/mod/colors\"\n\nconst Fallback colors.Color = 7\n\ntype Opt struct{ C colors.Color }\n"}, []*packages.Package{colors})
+	app := vfTypeCheck("example.com/mod/app", []string{"/m/app/app.go"}, []string{"package app\n\nimport (\n\t\"example.com/mod/colors\"\n\t\"example.com/mod/extra\"\n)\n\ntype Holder struct {\n\tC colors.Color\n\tO extra.Opt\n}\n"}, []*packages.Package{colors, extra})
+	members := func() []string {
+		ana := NewAnalysisFromFile(app, "/m/app/app.go")
+		enum, ok := ana.Types[colors.Types.Scope().Lookup("Color").Type()].(*Enum)
+		if !ok {
+			return []string{"<not an enum>"}
+		}
+		var out []string
+		for _, m := range enum.Members {
+			out = append(out, m.Const.Name())
+		}
+		return out
+	}
+	vfPermuteMaps(false)
+	ref := members()
+	vfObserve("members", ref)
+	vfPermuteMaps(true)
+	for r := 0; r < c07Reps(); r++ {
+		got := members()
+		same := len(got) == len(ref)
+		if same {
+			for i := range ref {
+				same = same && got[i] == ref[i]
+			}
+		}
+		vfAssert(same, "C07/enum-members-independent-of-the-order-of-the-import-walk")
+	}
+}
